@@ -12,7 +12,7 @@ P = {
         "standards are added with live handles whose frequency range covers the calibration's; solves are asserted only for determined, well-conditioned standard sets (three reflects pairwise >= 0.4 apart per port, plus a through for 2x2)",
     ],
     "tiers": tiers(
-        quick=[{"name": "rand", "mode": "run", "count": 14000, "max_size": 100, "shards": 12}],
+        quick=[{"name": "rand", "mode": "run", "count": 8000, "max_size": 100, "shards": 12}],
         thorough=[{"name": "rand", "mode": "run", "count": 40000, "max_size": 100, "shards": 16}],
     ),
 }
